@@ -147,6 +147,7 @@ class Check:
         n_viol = 0
         known_seen = {}
         unconfirmed = []
+        todo = []
         for key, g in sorted(self.groups.items()):
             sig = g["sig"]
             hit = next((e for e in known if sig_matches(e["match"], sig)), None)
@@ -155,25 +156,36 @@ class Check:
                 k["instances"] += g["count"]
                 k["signatures"] += 1
                 continue
+            todo.append(g)
+
+        def confirm_group(g):
             # an unlisted signature: confirm on its smallest instances through the public API
-            confirmed = None
+            tries = []
             for (_sz, inst_s) in g["instances"]:
                 inst = json.loads(inst_s)
                 if confirm is None:
-                    confirmed = inst
-                    break
-                ok, obs = confirm(inst)
-                self.cov["public_api_replays"] += 1
+                    return inst, tries
+                try:
+                    ok, obs = confirm(inst)
+                except Exception as ex:  # a replay that cannot run is a harness problem
+                    ok, obs = False, {"error": repr(ex)}
+                tries.append(obs)
                 if ok:
                     inst["replay_observation"] = obs
-                    confirmed = inst
-                    break
-                else:
-                    unconfirmed.append({"sig": sig, "observation": obs})
+                    return inst, tries
+            return None, tries
+
+        from concurrent.futures import ThreadPoolExecutor
+
+        with ThreadPoolExecutor(max_workers=8) as tp:
+            results = list(tp.map(confirm_group, todo))
+        for g, (confirmed, tries) in zip(todo, results):
+            self.cov["public_api_replays"] += len(tries)
             if confirmed is None:
+                unconfirmed.append({"sig": g["sig"], "observation": tries[-1] if tries else None})
                 continue
             n_viol += 1
-            path = self._write_replay(sig, confirmed, g["count"])
+            path = self._write_replay(g["sig"], confirmed, g["count"])
             out_lines.append(f"VIOLATION property={self.pid} replay={path}")
         # known findings: re-execute the stored witness; print only if it still fails
         for e in known:
